@@ -117,6 +117,14 @@ pub fn meta_toks(p: &PDB) -> Option<Vec<String>> {
     Some(o)
 }
 
+/// the mmCIF model does not follow positions: diagnostics are compared without line numbers
+pub fn strip_lines(tok: &str) -> String {
+    let (head, diags) = match tok.rfind(" | ") { Some(i) if tok.starts_with("OK ") => (&tok[..i + 3], &tok[i + 3..]), _ if tok.starts_with("ERR ") => ("ERR ", &tok[4..]), _ => return tok.to_string() };
+    let mut v: Vec<String> = diags.split(' ').map(|d| d.split('@').next().unwrap_or("").to_string()).collect();
+    v.sort();
+    format!("{}{}", head, v.join(" "))
+}
+
 pub fn outcome_tok(r: &Read) -> String {
     match r {
         Read::Panic(_) => "PANIC".into(),
